@@ -6,6 +6,7 @@ import (
 	"errors"
 	"fmt"
 	"io"
+	"testing/iotest"
 
 	lz4 "github.com/pierrec/lz4/v4"
 
@@ -23,7 +24,18 @@ type c19Case struct {
 	Size uint64 `json:"size"`
 	H    int    `json:"h"`
 	Word uint32 `json:"word,omitempty"`
+	Frag  bool  `json:"one_byte_source,omitempty"`
+	Reuse bool  `json:"reused_reader,omitempty"`
 }
+
+var c19Reused *lz4.Reader
+
+// c19Sized: a valid empty frame whose header declares a content size of 99
+var c19Sized = func() []byte {
+	hdr, want := c19Header(0x4068, 99, 0)
+	hdr[len(hdr)-1] = want
+	return append(hdr, 0, 0, 0, 0)
+}()
 
 var c19Sizes = []uint64{0, 1, 123, 1<<31 - 1, 1 << 32, 1<<63 - 1, 1 << 63, 1<<64 - 1}
 
@@ -92,11 +104,31 @@ func c19Run(k c19Case) *ev.Finding {
 		var err error
 		var size int
 		if p, msg := ev.Try(func() {
-			r := lz4.NewReader(bytes.NewReader(stream))
+			var src io.Reader = bytes.NewReader(stream)
+			if k.Frag {
+				src = iotest.OneByteReader(src) // the header arrives one byte per Read call
+			}
+			var r *lz4.Reader
+			if k.Reuse {
+				// a Reader that has just read a frame with a content size of 99 and is Reset
+				if c19Reused == nil {
+					c19Reused = lz4.NewReader(nil)
+				}
+				r = c19Reused
+				r.Reset(bytes.NewReader(c19Sized))
+				io.Copy(io.Discard, r)
+				r.Reset(src)
+			} else {
+				r = lz4.NewReader(src)
+			}
 			n, err = r.Read(make([]byte, 16))
 			size = r.Size()
 		}); p {
+			c19Reused = nil
 			return &ev.Finding{Sig: "reader panic on header", What: msg, Case: k}
+		}
+		if err != io.EOF {
+			c19Reused = nil // do not carry an errored Reader over
 		}
 		var got string
 		if err == io.EOF && n == 0 {
@@ -106,7 +138,7 @@ func c19Run(k c19Case) *ev.Finding {
 		}
 		if got != exp {
 			return &ev.Finding{
-				Sig:  fmt.Sprintf("Reader expected=%s got=%s bscode=%d sizebit=%v", exp, got, int(k.Desc>>12)&7, k.Desc&8 != 0),
+				Sig:  fmt.Sprintf("Reader expected=%s got=%s bscode=%d sizebit=%v one-byte-source=%v reused=%v", exp, got, int(k.Desc>>12)&7, k.Desc&8 != 0, k.Frag, k.Reuse),
 				What: fmt.Sprintf("stream % x", stream), Case: k}
 		}
 		if exp == "accept" {
@@ -115,7 +147,7 @@ func c19Run(k c19Case) *ev.Finding {
 				wantSize = k.Size
 			}
 			if uint64(size) != wantSize {
-				return &ev.Finding{Sig: fmt.Sprintf("Reader.Size differs from the header field (sizebit=%v)", k.Desc&8 != 0),
+				return &ev.Finding{Sig: fmt.Sprintf("Reader.Size differs from the header field (sizebit=%v reused=%v)", k.Desc&8 != 0, k.Reuse),
 					What: fmt.Sprintf("want %d got %d", wantSize, size), Case: k}
 			}
 		}
@@ -174,11 +206,14 @@ func init() {
 				for _, sz := range sizes {
 					_, want := c19Header(desc, sz, 0)
 					for _, h := range []byte{want, want + 1, want ^ 0x80} {
-						for _, kind := range []string{"vfh", "reader"} {
+						for vi, kind := range []string{"vfh", "reader", "reader", "reader"} {
 							if kind == "vfh" && sz == 0 {
 								continue // already in the full sweep
 							}
-							k := c19Case{Kind: kind, Desc: desc, Size: sz, H: int(h)}
+							k := c19Case{Kind: kind, Desc: desc, Size: sz, H: int(h), Frag: vi == 2, Reuse: vi == 3}
+							if vi >= 2 && h != want && sz != 0 {
+								continue // fragmented / reused variants: the correct checksum for every size, wrong ones at size 0
+							}
 							c.Eval(1)
 							c.Distinct(1)
 							c.Add(kind+"_cases", 1)
